@@ -36,8 +36,9 @@ def norm_triples(triples, vs, R):
     return out
 
 
-def content_diff(triples_a, top_a, triples_b, top_b, spec, explicit_top_a=None):
-    """'' if graph b has the content of graph a (same top, variables, triples up to deinversion), else a description."""
+def content_diff(triples_a, top_a, triples_b, top_b, spec, explicit_top_a=None, decoded_b=True):
+    """'' if graph b has the content of graph a (same top, variables, triples up to deinversion), else a description.
+    b is a freshly decoded graph unless decoded_b=False: decoding deinverts every inverted edge (documented reading, C04)."""
     R = roles_for(spec)
     va = variables(triples_a, explicit_top_a)
     vb = variables(triples_b, None)
@@ -45,6 +46,10 @@ def content_diff(triples_a, top_a, triples_b, top_b, spec, explicit_top_a=None):
         return 'top %r became %r' % (top_a, top_b)
     if va != vb:
         return 'variables %r became %r' % (sorted(map(str, va)), sorted(map(str, vb)))
+    if decoded_b and not R.noop:
+        for s_, r_, t_ in triples_b:
+            if r_ != ':instance' and t_ in vb and R.inverted(r_):
+                return 'decoded graph keeps the inverted role on the edge %r' % ((s_, r_, t_),)
     na, nb = norm_triples(triples_a, va, R), norm_triples(triples_b, vb, R)
     if na != nb:
         lost = list((na - nb).elements())
